@@ -115,6 +115,7 @@ type gen struct {
 	localCell   map[string]string
 	fieldRefs   map[string]*fieldAccess
 	immMaps     map[string]bool
+	pureCache   map[*SpecFunc]bool
 	finalVals   map[*ssa.FreeVar]Val
 	known       map[string]Finding
 	canaryDone  bool
